@@ -17,3 +17,63 @@ Definition c14ok (c : c14case) : bool :=
   Z.eqb (cmp_int (ocmp (c14a c) (c14b c))) (c14cmp c) &&
   N.eqb (ohash (c14a c)) (c14ha c) &&
   N.eqb (ohash (c14b c)) (c14hb c).
+
+(* ---- structural (syntactic) equality on values, used only to compare observed listings ---- *)
+Definition list_eqb {A} (f : A -> A -> bool) := fix go (l l' : list A) : bool :=
+  match l, l' with
+  | [], [] => true
+  | a :: t, b :: t' => f a b && go t t'
+  | _, _ => false
+  end.
+
+Fixpoint veqb (a b : value) {struct a} : bool :=
+  let oeqb := fun (o o' : option value) =>
+    match o, o' with
+    | None, None => true
+    | Some u, Some u' => veqb u u'
+    | _, _ => false
+    end in
+  match a, b with
+  | VBinary x, VBinary y => list_eqb N.eqb x y
+  | VBuffer x, VBuffer y => N.eqb x y
+  | VBool x, VBool y => Bool.eqb x y
+  | VError x, VError y => list_eqb N.eqb x y
+  | VInt w x, VInt w' y => width_eqb w w' && Z.eqb x y
+  | VUint w x, VUint w' y => width_eqb w w' && N.eqb x y
+  | VF32 x, VF32 y => N.eqb x y
+  | VF64 x, VF64 y => N.eqb x y
+  | VString x, VString y => list_eqb N.eqb x y
+  | VSlice x, VSlice y =>
+      (fix go (l l' : list (option value)) : bool :=
+         match l, l' with
+         | [], [] => true
+         | o :: t, o' :: t' => oeqb o o' && go t t'
+         | _, _ => false
+         end) x y
+  | VMap x, VMap y =>
+      (fix gob (l l' : table_t) : bool :=
+         match l, l' with
+         | [], [] => true
+         | (h, e) :: t, (h', e') :: t' =>
+             N.eqb h h' &&
+             (fix gop (p p' : bucket_t) : bool :=
+                match p, p' with
+                | [], [] => true
+                | (k, v) :: q, (k', v') :: q' => oeqb k k' && oeqb v v' && gop q q'
+                | _, _ => false
+                end) e e' &&
+             gob t t'
+         | _, _ => false
+         end) x y
+  | _, _ => false
+  end.
+
+Definition oveqb (o o' : ovalue) : bool :=
+  match o, o' with
+  | None, None => true
+  | Some u, Some u' => veqb u u'
+  | _, _ => false
+  end.
+
+Definition pair_eqb (p q : option value * option value) : bool :=
+  oveqb (fst p) (fst q) && oveqb (snd p) (snd q).
